@@ -5,11 +5,15 @@ mod e1world;
 mod e2;
 mod e2rig;
 mod iso;
+mod meter;
 mod props;
 mod runner;
 mod wire;
 
 use std::os::unix::process::CommandExt;
+
+#[global_allocator]
+static GLOBAL: meter::Counting = meter::Counting;
 
 fn arg_val(args: &[String], name: &str) -> Option<String> {
   args
